@@ -56,6 +56,10 @@ if VARIANT == "5":
     base = base.replace("Produce THREE independent, realistic changes", "Produce TWO independent, realistic changes").replace("(three different mechanisms at three different code\nsites; at least one of them", "(two different mechanisms at two different code\nsites, in two DIFFERENT files; at least one of them")
     base = base.replace("Think of plausible developer mistakes:", "Change 1 must be in a file that is NOT in the list of files above (look for what the property silently depends on elsewhere: exceptions.py,\nsuspend.py, config.py, identifier.py, logger.py, types.py, operation/base.py, lambda_service.py, threading.py, serdes.py, ... whichever applies). Change 2 must involve a\nLESS COMMON PATH of the listed files: a re-invocation with a particular history, an operation status that is rarely seen (READY, PENDING, TIMED_OUT, STOPPED, CANCELLED), a\nconfiguration corner (None / 0 / empty), an exception raised at an unusual point, or two threads meeting at a particular instant. Think of plausible developer mistakes:")
     base = base.replace("  {wt}/_out/m2/...  and  {wt}/_out/m3/...   (same for changes 2 and 3)", "  {wt}/_out/m2/...   (same for change 2)").replace("If after honest effort you\ncan only produce two, deliver two. ", "If after honest effort no file outside the list can break the property, say so in m1/meta.json and use any other function for change 1. ")
+if VARIANT == "6":
+    base = base.replace("Produce THREE independent, realistic changes", "Produce TWO independent, realistic changes").replace("(three different mechanisms at three different code\nsites; at least one of them", "(two different mechanisms at two different code\nsites, in two DIFFERENT functions; at least one of them")
+    base = base.replace("Think of plausible developer mistakes:", "Both changes must get their effect from a PYTHON LANGUAGE OR LIBRARY SUBTLETY rather than from a plainly wrong condition - for example: a mutable default\nargument or class attribute shared between instances; a closure capturing a loop variable late; `is` vs `==` on strings / ints / enums; truthiness of 0, '' or an\nempty container vs `is None`; `and`/`or` returning an operand; dict / set ordering or key collisions; shallow vs deep copy and aliasing; a generator consumed twice; `sorted`/`min`/`max`\nkey and tie behaviour; integer vs float division or rounding; exception hierarchy (`except Exception` vs BaseException, `finally`/`return` overriding an exception,\n`raise ... from`); a context manager that swallows an exception; a decorator or property that caches; `__eq__`/`__hash__` of dataclasses; string formatting / `str()` vs `repr()`;\nargument evaluation order; late import side effects; thread-local vs shared state. The change should look like idiomatic, reasonable Python. Think of plausible developer mistakes:")
+    base = base.replace("  {wt}/_out/m2/...  and  {wt}/_out/m3/...   (same for changes 2 and 3)", "  {wt}/_out/m2/...   (same for change 2)").replace("If after honest effort you\ncan only produce two, deliver two. ", "Say in meta.json (field \"subtlety\") which language/library subtlety each change relies on. ")
 for l in open('/verif/properties.jsonl'):
     p = json.loads(l)
     wt = f"{root}/{p['id']}"
